@@ -1748,6 +1748,9 @@ func (nz *normaliser) expandBody(h *helper, call *ast.CallExpr, lhs []ast.Expr, 
 	}
 	nz.changed[nz.file] = true
 	nz.notes = append(nz.notes, fmt.Sprintf("call of %s expanded in place", funcName(h.obj)))
+	if !tail && !needLabel && k == nil && finalLhs == nil {
+		body.List = unifyResults(body.List, sfx)
+	}
 	var inner *ast.BlockStmt
 	if needLabel {
 		sw := &ast.SwitchStmt{Body: &ast.BlockStmt{List: []ast.Stmt{&ast.CaseClause{Body: body.List}}}}
@@ -1828,6 +1831,109 @@ func freeBreak(n ast.Node) bool {
 	}
 	walk(n, false)
 	return found
+}
+
+// unifyResults: the expansion ends in `x, y = aZq, bZq` where aZq and bZq are locals of the helper that are declared once,
+// at the top level of its body, by `aZq, bZq := <expr>` (all of that statement's variables being among the returned ones).
+// The helper's result variables and the caller's receiving variables are then one and the same: the declaration becomes
+// the assignment `x, y = <expr>` and the copy at the end disappears — which is the statement that stood in the caller
+// before it was moved into the helper (`ac, ok := s.outgoingCalls[id]` rather than a lookup into temporaries and a copy).
+func unifyResults(list []ast.Stmt, sfx string) []ast.Stmt {
+	if len(list) < 2 {
+		return list
+	}
+	fin, ok := list[len(list)-1].(*ast.AssignStmt)
+	if !ok || fin.Tok != token.ASSIGN || len(fin.Lhs) != len(fin.Rhs) {
+		return list
+	}
+	to := map[string]string{} // helper local → caller variable
+	for i, r := range fin.Rhs {
+		rid, ok1 := r.(*ast.Ident)
+		lid, ok2 := fin.Lhs[i].(*ast.Ident)
+		if !ok1 || !ok2 || !strings.HasSuffix(rid.Name, sfx) || lid.Name == "_" {
+			return list
+		}
+		if _, dup := to[rid.Name]; dup {
+			return list
+		}
+		to[rid.Name] = lid.Name
+	}
+	// the one declaration of those locals
+	declAt := -1
+	for i, st := range list[:len(list)-1] {
+		as, ok := st.(*ast.AssignStmt)
+		if !ok || as.Tok != token.DEFINE {
+			continue
+		}
+		n := 0
+		for _, l := range as.Lhs {
+			if id, ok := l.(*ast.Ident); ok {
+				if _, is := to[id.Name]; is {
+					n++
+				}
+			}
+		}
+		if n == 0 {
+			continue
+		}
+		if n != len(as.Lhs) || n != len(to) || declAt >= 0 {
+			return list
+		}
+		declAt = i
+	}
+	if declAt < 0 {
+		return list
+	}
+	// no other definition of these names anywhere (nested := of the same name would now assign the caller's variable)
+	defs := 0
+	for _, st := range list[:len(list)-1] {
+		ast.Inspect(st, func(n ast.Node) bool {
+			switch x := n.(type) {
+			case *ast.AssignStmt:
+				if x.Tok == token.DEFINE {
+					for _, l := range x.Lhs {
+						if id, ok := l.(*ast.Ident); ok {
+							if _, is := to[id.Name]; is {
+								defs++
+							}
+						}
+					}
+				}
+			case *ast.ValueSpec:
+				for _, nm := range x.Names {
+					if _, is := to[nm.Name]; is {
+						defs += 100
+					}
+				}
+			case *ast.RangeStmt:
+				if x.Tok == token.DEFINE {
+					for _, e := range []ast.Expr{x.Key, x.Value} {
+						if id, ok := e.(*ast.Ident); ok {
+							if _, is := to[id.Name]; is {
+								defs += 100
+							}
+						}
+					}
+				}
+			}
+			return true
+		})
+	}
+	if defs != len(to) {
+		return list
+	}
+	for _, st := range list[:len(list)-1] {
+		ast.Inspect(st, func(n ast.Node) bool {
+			if id, ok := n.(*ast.Ident); ok {
+				if nn, is := to[id.Name]; is {
+					id.Name = nn
+				}
+			}
+			return true
+		})
+	}
+	list[declAt].(*ast.AssignStmt).Tok = token.ASSIGN
+	return list[:len(list)-1]
 }
 
 // evidentlyNonNil: the expression builds a new value (an error constructor, &T{…}).
